@@ -155,4 +155,33 @@ theorem multi_load_spec {κ α : Type} [Inhabited α] [Inhabited κ] (loadOne : 
           subst hr
           rfl
 
+/-- a list of paths WITHOUT a format: every path is detected on its own — part k of the stack is the import of path k under
+    the format autodetect finds for path k (never the format of another entry of the list) -/
+theorem multi_load_auto {κ α : Type} [Inhabited α] [Inhabited κ] (info : String → Dnp.Load.PathInfo)
+    (imp : String → String → Except Err (Data κ α)) (arange : Nat → List κ) {paths : List String} {dim : Option String}
+    {coord : List κ} {r : Data κ α}
+    (hr : Dnp.Load.loadMany (Dnp.Load.loadOneAuto info imp none) arange paths dim coord = .ok r) :
+    ∃ parts : List (Data κ α), List.Forall₂
+      (fun p d => ∃ f, Dnp.Load.autodetect (info p) = .fmt f ∧ Dnp.Load.dispatches f = true ∧ imp f p = .ok d) paths parts := by
+  unfold Dnp.Load.loadMany at hr
+  split at hr
+  · cases hr
+  · simp only [bind, Except.bind] at hr
+    cases hm : paths.mapM (Dnp.Load.loadOneAuto info imp none) with
+    | error e => rw [hm] at hr; cases hr
+    | ok parts =>
+      refine ⟨parts, ?_⟩
+      have h := Dnp.C12.mapM_except_forall₂ _ paths parts hm
+      refine List.Forall₂.imp ?_ h
+      intro p d hpd
+      unfold Dnp.Load.loadOneAuto at hpd
+      simp only at hpd
+      split at hpd
+      · rename_i f hf
+        split at hpd
+        · rename_i hdisp
+          exact ⟨f, hf, hdisp, hpd⟩
+        · cases hpd
+      · cases hpd
+
 end Dnp.C16
